@@ -75,7 +75,10 @@ META = dict(
          'ONLY serialiser the encoder inverts (C09_json_text_latin1_unique), and refutes the "UTF-8 when valid" serialiser on '
          'b"Z\\xc3\\xbcrich" (C09_utf8_when_valid_loses_roundtrip); for the TEXT formats the value token of character data is '
          'modelled too (repr of bytes, ast.literal_eval) and C09_bytes_repr_roundtrip proves literal_eval(repr(b)) == b for every '
-         'octet string. Tie and oracle on the real command line: every message of a '
+         'octet string, and Props/C09TextBytes.lean DERIVES the token hypotheses of the text-converter theorems for character values '
+         'from that model (C09_repr_bytes_tok: no " b<q>" before the closing quote whatever the bytes; C09_repr_bytes_edges; '
+         'C09_repr_bytes_core), so that C09_nested_text_to_flat_bytes_partial and C09_flat_text_to_flat_bytes_values hold with '
+         'nothing assumed of the tokens of character values (numbers / None / flag tuples stay tested parameters). Tie and oracle on the real command line: every message of a '
          'character-data stream (001015/001019/001026/205YYY/208YYY/section 2 bytes, plain, replicated, with associated fields, '
          'compressed or not; octets sweeping all 256 values, valid 2-/3-/4-byte UTF-8, invalid UTF-8, the missing pattern, NULs, '
          'quotes/backslashes/control characters, blanks), a sample of the other streams and sample files is run through '
